@@ -444,7 +444,7 @@ class Woven:
     pass
 
 
-def weave(repo='/repo', contracts='/verif/contracts', extra_modules=()):
+def weave(repo='/repo', contracts='/verif/contracts', extra_modules=(), drop_directives=()):
     """returns Woven with .text, .files{rel: info}, .fn_spans[(rel,key)] = (line_lo, line_hi), .stats"""
     srcdir = os.path.join(repo, 'src')
     log = []
@@ -463,6 +463,9 @@ def weave(repo='/repo', contracts='/verif/contracts', extra_modules=()):
         src = open(path).read()
         vs = os.path.join(contracts, modname + '.vspec')
         dirs = parse_vspec(vs) if os.path.exists(vs) else []
+        dropped_here = [d for d in dirs if repr(d) in drop_directives]
+        dirs = [d for d in dirs if repr(d) not in drop_directives]
+        w.lost_hints += ['(does not compile against the current source, dropped) ' + repr(d) for d in dropped_here]
         fw = FileWeave(rel, src, dirs, log)
         fw.layout_texts = lay_texts if rel.startswith('indicators') else {}
         try:
